@@ -466,7 +466,13 @@ func Judge(sc *Scenario, tr *Trace) ([]pbt.Violation, Stats) {
 			add(pbt.V("wrong-receiver", "flush of %s (route %s) went to receiver %s, routing says %s", a.GroupKey, a.RouteID, a.Receiver, rt.Receiver))
 		}
 		listedFiring := map[string]bool{}
+		listedOnce := map[string]bool{}
 		for _, al := range a.Alerts {
+			// one notification carries each alert of its group once
+			if listedOnce[al.Key] {
+				add(pbt.V("duplicate-alert-in-notification", "notification to %s/%d for group %s flushed at %s lists alert %s more than once", a.Receiver, a.Idx, a.GroupKey, a.Flush.Format(tf), al.Key))
+			}
+			listedOnce[al.Key] = true
 			ls := m.Alerts.Labels[al.Key]
 			if !memberSet[al.Key] {
 				add(pbt.V("foreign-alert", "notification for group %s (route %s) at %s lists alert %s which routing does not place in that group", a.GroupKey, a.RouteID, a.Flush.Format(tf), al.Key))
